@@ -48,12 +48,13 @@ def register(R):
             'waits_for_its_dependencies_first_on_every_path': (B(
                 len(calls(tr, 'Task._wait_on_dependent_futures')) == 1
                 and index_of(tr, calls(tr, 'Task._wait_on_dependent_futures')[0]) == min(
-                    [index_of(tr, e) for e in tr if e.kind in ('call', 'ext')] or [0])), ['C05', 'C04', 'C08', 'C03']),
+                    [index_of(tr, e) for e in tr if e.kind in ('call', 'ext')] or [0])), ['C05', 'C04', 'C08', 'C03', 'C07']),
             # _main is not invoked for a transfer that was already done (failed / cancelled) when checked
             'main_only_if_not_done_at_the_check': z3.And([B(True)] + [
                 _not_done_before(tr, e) for e in em]),
             # ... and that check comes after the dependencies were waited for and their results gathered, so a
-            # failure recorded by any dependency is seen (a failed part must keep the final step from running)
+            # failure recorded by any dependency is seen (a failed part must keep the final step from running), and a
+            # cancellation that lands while the task is waiting keeps its request from being issued (C07)
             'done_check_follows_waiting_and_gathering': B(all(
                 [r for r in tr[:index_of(tr, e)] if r.kind == 'read' and r.name == '_status'] and
                 index_of(tr, [r for r in tr[:index_of(tr, e)] if r.kind == 'read' and r.name == '_status'][-1]) >
@@ -67,7 +68,7 @@ def register(R):
         return out
 
     R.contract(
-        f'{TASK}.__call__', props=['C03', 'C04', 'C05', 'C08'], params=dict(ctx=ExtT('ctx')),
+        f'{TASK}.__call__', props=['C03', 'C04', 'C05', 'C07', 'C08'], params=dict(ctx=ExtT('ctx')),
         checks=call_checks,
         raises={},  # never propagates an Exception of the task body
         loops={0: trivial_loop()},
